@@ -114,12 +114,27 @@ def criteria(p, name, legacy):
 
 
 class Stub:
+    """Port enumerator stand-in. Entries are handed out as plain tuples or as the objects pyserial
+    really returns (serial.tools.list_ports_common.ListPortInfo: indexable, but equality and hash
+    look at the device name only)."""
+
     def __init__(self):
         self.ports = []
         self.calls = 0
+        self.entry_type = "tuple"
 
     def __call__(self):
         self.calls += 1
+        if self.entry_type == "ListPortInfo":
+            from serial.tools.list_ports_common import ListPortInfo
+            out = []
+            for dev, desc, hwid in self.ports:
+                info = ListPortInfo(dev, skip_link_detection=True)
+                info.description, info.hwid = desc, hwid
+                out.append(info)
+            return out
+        if self.entry_type == "list":
+            return [list(p) for p in self.ports]
         return list(self.ports)
 
 
@@ -147,10 +162,12 @@ def call(ctx, witness, label, fn, *args):
 def check_list(ctx, inst, rng, ports, kinds):
     legacy, ebb3 = inst.legacy, inst.ebb3
     inst.stub.ports = ports
+    inst.stub.entry_type = rng.choice(("tuple", "ListPortInfo", "ListPortInfo", "list"))
     has_snr = any("SNR=" in p[2] for p in ports)
-    witness = {"ports": [list(p) for p in ports]}
+    witness = {"ports": [list(p) for p in ports], "entry_type": inst.stub.entry_type}
     key = json.dumps(ports)
-    classes = ["list:n=%s" % ("0" if not ports else "1" if len(ports) == 1 else "2..3" if len(ports) <= 3 else "4+")]
+    classes = ["list:n=%s" % ("0" if not ports else "1" if len(ports) == 1 else "2..3" if len(ports) <= 3 else "4+"),
+               "entries:" + inst.stub.entry_type]
     classes += sorted({"has:" + k for k in kinds})
     nb = sum(1 for p in ports if is_name_match(p) or is_vidpid_match(p))
     classes.append("boards:%s" % ("0" if nb == 0 else "1" if nb == 1 else "2+"))
@@ -199,7 +216,7 @@ def check_list(ctx, inst, rng, ports, kinds):
     ctx.case(classes + ["fn:listing"], ("list", key), nontrivial=bool(ports))
     ctx.count("monitor:return values checked", 2)
     for label, okx, got in (("ebb_serial.listEBBports", ok, got_l), ("ebb3_serial.list_ebb_ports", ok3, got_3)):
-        if okx and (got if got is None else [tuple(p) for p in got]) != want_list:
+        if okx and (got if got is None else [(p[0], p[1], p[2]) for p in got]) != want_list:
             ctx.violation("board listing is not the in-order filter of the enumeration",
                           dict(witness, function=label, returned=got, expected=want_list))
 
@@ -305,7 +322,8 @@ def run(ctx):
                 "first: VID/PID-only board precedes a name match", "first: found by VID/PID only", "first: found by name",
                 "lookup:as reported", "lookup:upper", "lookup:lower", "lookup:port name", "lookup:port name (case varied)",
                 "lookup:serial tag", "lookup:SNR tag", "lookup:arbitrary name", "layer:legacy", "layer:ebb3",
-                "lookup: no earlier port matches", "lookup: an earlier port matches too"):
+                "lookup: no earlier port matches", "lookup: an earlier port matches too",
+                "entries:tuple", "entries:ListPortInfo", "entries:list"):
         ctx.need(cls, 100)
     ctx.need("monitor:return values checked", 50000)
     ctx.need("history: empty list on a re-used object", 200)
